@@ -119,6 +119,7 @@ class SymEx:
         self.max_paths = max_paths
         self.opaque = set(opaque)          # workspace fn-name suffixes NOT to inline
         self.extra_models = models or []
+        self.stop_blocks = set()           # region execution: reaching one of these blocks ends the path
         self.inlined = set()
         self.opaque_calls = set()
         self._loopfree = {}
@@ -135,6 +136,23 @@ class SymEx:
             st.frames[fid][i + 1] = a
         outs = []
         self._exec(body, fid, 0, st, depth, outs, {})
+        return outs
+
+    def run_region(self, body, start_bb, frame, stop_blocks):
+        """Execute from `start_bb` with the given initial frame {local: value} until a block of `stop_blocks` (outcome.ret =
+        ('stopped', bb)) or a return is reached."""
+        st = State()
+        fid = st.nfid
+        st.nfid += 1
+        st.frames[fid] = dict(frame)
+        outs = []
+        old = self.stop_blocks
+        self.stop_blocks = set(stop_blocks)
+        try:
+            self._exec(body, fid, start_bb, st, 0, outs, {}, first=True)
+        finally:
+            self.stop_blocks = old
+        self.region_fid = fid
         return outs
 
     def loopfree(self, body):
@@ -397,10 +415,14 @@ class SymEx:
         return ('bin', base, a, b)
 
     # ---------------------------------------------------------------- execution
-    def _exec(self, body, fid, bb, st, depth, outs, visits):
+    def _exec(self, body, fid, bb, st, depth, outs, visits, first=False):
         while True:
             if len(outs) > self.max_paths:
                 raise PathAbort('too many paths')
+            if depth == 0 and bb in self.stop_blocks and not first:
+                outs.append(Outcome(('stopped', bb), list(st.pc), list(st.effects), st))
+                return
+            first = False
             visits = dict(visits)
             visits[bb] = visits.get(bb, 0) + 1
             if visits[bb] > 1:
